@@ -192,3 +192,34 @@ func ZZ_C02_TwoWriters() {
 	// (the key itself may have been evicted: reordered cost deltas can overshoot MaxSize transiently, which the
 	// property does not forbid; what it demands is exact accounting of whatever is resident)
 }
+
+// ZZ_C02_PoolStaleUpdate: entry pool on. A writer updates key 1 (cost change) and is preempted between its map
+// update and the queuing of its event; meanwhile the other client stores key 2, which evicts and recycles the
+// entry object of key 1, and stores key 1 again. The delayed update event belongs to the old incarnation:
+// it must not be applied to the new one (the same-key reuse guard gives the new incarnation a new object).
+func ZZ_C02_PoolStaleUpdate() {
+	var notes []zzNote
+	s := zzThreadedStore(2, &notes) // POOL comes from the configuration
+	s.Set(1, 101, 1, 0)
+	s.Wait()
+	vfSetPreemptions(vfConfig("PRE", 1))
+	done := make(chan int, 2)
+	go func() {
+		s.Set(1, 102, 2, 0) // update, cost +1
+		done <- 1
+	}()
+	go func() {
+		s.Set(2, 201, 2, 0) // 1+2 > 2: somebody is evicted
+		s.Wait()
+		s.Set(1, 103, 1, 0)
+		s.Wait()
+		done <- 1
+	}()
+	<-done
+	<-done
+	vfSetPreemptions(0)
+	s.Wait()
+	vfReach("drained")
+	zzAccounted(s, "pool-stale-update")
+	zzViews(s, "pool-stale-update")
+}
